@@ -77,12 +77,13 @@ impl Publish {
     pub(crate) fn packet_header_size(
         src: &BytesMut,
         packet_flags: u8,
+        remaining_length: u32,
     ) -> Result<Option<u32>, DecodeError> {
+        // topic len
+        ensure!(remaining_length >= 2, DecodeError::InvalidLength);
         if src.remaining() < 2 {
             return Ok(None);
         }
-
-        // topic len
         let mut len = u32::from(u16::from_be_bytes([src[0], src[1]])) + 2;
 
         // packet-id len
@@ -90,14 +91,20 @@ impl Publish {
         if qos != QoS::AtMostOnce {
             len += 2; // len of u16
         }
+        // header and properties length must fit into the frame
+        ensure!(len < remaining_length, DecodeError::InvalidLength);
         if src.remaining() < len as usize {
             return Ok(None);
         }
 
-        // properties len
-        if let Some((prop_len, pos)) = utils::decode_variable_length(&src[len as usize..])? {
-            Ok(Some(len + prop_len + pos as u32))
+        // properties len, it cannot extend beyond the frame
+        let end = std::cmp::min(src.len(), remaining_length as usize);
+        if let Some((prop_len, pos)) = utils::decode_variable_length(&src[len as usize..end])? {
+            let len = len + prop_len + pos as u32;
+            ensure!(len <= remaining_length, DecodeError::InvalidLength);
+            Ok(Some(len))
         } else {
+            ensure!(end < remaining_length as usize, DecodeError::InvalidLength);
             Ok(None)
         }
     }
